@@ -434,3 +434,21 @@ def factorization_bounded(tier, seed):
         if not ok:
             found.setdefault("numbertheory.factorization#ascending-prime-powers-with-product-n", (dict(n=n), "factorization(%d) = %r" % (n, f)))
     return n_cases, found, [dict(exhaustive_below=top)]
+
+
+def _inv_field_apply(ex, F, vals, line):
+    """inverse_mod(a, n) in scalar mode: 0 for a == 0 (as an integer), else 1/a in F_n (ValueError from pow if a is a non-zero multiple of n)"""
+    from pyvc.field import FInt, lin
+    import sympy as sp
+    a, m = vals["a"], vals["m"]
+    if not (isinstance(m, FInt) and m.name == "p"):
+        raise EngineLimit("inverse_mod modulo something other than the field prime in field mode")
+    a = a if isinstance(a, FInt) else F.const(a)
+    if F.code_test_zero(ex, a):
+        return F.const(0)
+    if F.status(a.res) == "zero":
+        ex.raise_("ValueError", line)
+    return FInt(F, 1 / a.res, (lin(0, 1), lin(1, -1)))
+
+
+_R[NT + "inverse_mod"].field_apply = _inv_field_apply
